@@ -36,15 +36,15 @@
 (* VLog::new (prefill_file_handles: highest id becomes the active writer)  *)
 (* followed by cleanup_orphaned_vlog_files.                                *)
 (*                                                                         *)
-(* Behaviour switches (so that the defects found stay reproducible in the  *)
-(* model and a repair is one constant away):                               *)
+(* Behaviour switches (the repaired defects stay reproducible in the model *)
+(* as "teeth" runs; the first value of each is the repository now):        *)
 (*   SyncOnRotate  TRUE  = repository (761a8d8); FALSE = before that fix   *)
-(*   CleanupRule   "min_live" = repository; "no_cursors" = clean-up leaves *)
-(*                 the files alone while any cursor is open (what the doc  *)
-(*                 comment of cleanup_obsolete_files promises)             *)
-(*   HeaderCheck   "strict" = repository (a value-log file shorter than    *)
-(*                 its header makes open fail); "lenient" = such a file is *)
-(*                 treated as empty                                        *)
+(*   CleanupRule   "no_cursors" = repository (56ef569): clean-up leaves    *)
+(*                 the files alone while any cursor is open; "min_live" =  *)
+(*                 before: only the live tables count                      *)
+(*   HeaderCheck   "lenient" = repository (302562c): a value-log file      *)
+(*                 shorter than its header is an empty file; "strict" =    *)
+(*                 before: it makes open fail                              *)
 (***************************************************************************)
 EXTENDS Retention, SequencesExt, TLC
 
